@@ -4,18 +4,11 @@ namespace Acra.Props.C13
 open Acra.Py Acra.Model.Ch11Pay Acra.Model.Ch11Pay.PCM Acra.Gen.Ch11PCM Acra.Lemmas.Ch11PCM Acra.Lemmas.Ch11Pay
 open Acra.Lemmas.Ch11MIL1553 (Ipts_unpack_congr)
 
-/-
-  Full statement (C13, `unpack` depends only on the bytes):
-    ∀ t u buf ex, same codec options (throughput, alignment, time-stamp kind) → unpack succeeds →
-      Frame.unpack t buf ex = Frame.unpack u buf ex
-  This is FALSE of `PCMMinorFrame.unpack`: with `extract_sync_sfid=False` it leaves `syncword` / `sfid`
-  as they were, and in throughput mode it leaves `intra_packet_data_header` as it was (witness below).
-  Proved instead: the result is the same whenever the two objects also agree on those three attributes
-  (`…_partial`), and unconditionally when the sync word and sub-frame id are extracted in packed mode.
--/
-theorem PCMFrame_unpack_state_independent_partial (t u : Frame) (buf : Bytes) (ex : Bool)
+/-- a successful minor-frame unpack leaves an object with the same codec options (throughput switch,
+    alignment, kind of time stamp) exactly as it would leave a new one: since the `fix:` commit that
+    clears `syncword`, `sfid` and the data header at the start of `unpack`, no attribute survives -/
+theorem PCMFrame_unpack_state_independent (t u : Frame) (buf : Bytes) (ex : Bool)
     (hthr : t.throughput = u.throughput) (hal : t.alignment = u.alignment) (hk : sameKind t.ipts u.ipts)
-    (hs : t.syncword = u.syncword) (hf : t.sfid = u.sfid) (hh : t.hdr = u.hdr)
     (h : (Frame.unpack t buf ex).2 = .ok ()) : Frame.unpack t buf ex = Frame.unpack u buf ex := by
   have hn : (t.ipts = .none) = (u.ipts = .none) := by
     cases hti : t.ipts <;> cases hui : u.ipts <;> simp_all [sameKind]
@@ -24,28 +17,16 @@ theorem PCMFrame_unpack_state_independent_partial (t u : Frame) (buf : Bytes) (e
   repeat' split
   all_goals simp_all
 
-theorem PCMFrame_unpack_state_independent_extract (t u : Frame) (buf : Bytes)
-    (hthr : t.throughput = false) (hthr' : u.throughput = false) (hal : t.alignment = u.alignment)
-    (hk : sameKind t.ipts u.ipts)
-    (h : (Frame.unpack t buf true).2 = .ok ()) : Frame.unpack t buf true = Frame.unpack u buf true := by
-  have hn : (t.ipts = .none) = (u.ipts = .none) := by
-    cases hti : t.ipts <;> cases hui : u.ipts <;> simp_all [sameKind]
-  revert h
-  simp only [Frame.unpack, hn, Ipts_unpack_congr _ _ _ hk, hthr, hthr', hal]
-  repeat' split
-  all_goals simp_all
-
-/-- the witness: a frame object whose `syncword` was set (by an earlier `unpack(…, True)` or by
-    assignment) keeps it through `unpack(buf)`, and then packs differently from a new object given
-    the same bytes -/
+/-- the former witness of the defect: a frame object whose `syncword` was set no longer keeps it
+    through `unpack(buf)` -/
 example :
     let buf : Bytes := [1, 0, 0, 0, 0, 0, 0, 0, 7, 0, 0xAA, 0xBB]
     let fresh : Frame := Frame.fresh (some 0) false 0
     let used : Frame := { fresh with syncword := some 5 }
-    (Frame.unpack used buf false).2 = .ok () ∧ (Frame.unpack fresh buf false).2 = .ok () ∧
-    (Frame.unpack used buf false).1.syncword = some 5 ∧ (Frame.unpack fresh buf false).1.syncword = Option.none ∧
-    ∃ b1 b2, (Frame.unpack used buf false).1.pack = .ok b1 ∧ (Frame.unpack fresh buf false).1.pack = .ok b2 ∧ b1 ≠ b2 :=
-  ⟨rfl, rfl, rfl, rfl, _, _, rfl, rfl, by decide⟩
+    (Frame.unpack used buf false).2 = .ok () ∧
+    (Frame.unpack used buf false).1.syncword = Option.none ∧
+    (Frame.unpack used buf false).1 = (Frame.unpack fresh buf false).1 :=
+  ⟨rfl, rfl, rfl⟩
 
 /-- a successful packet unpack leaves an object with the same options (time-stamp source, assigned
     size, sync word) exactly as it would leave a new one; `pack` does not modify the object -/
